@@ -153,7 +153,7 @@ impl<'h> FindMatchesImpl<'h> {
             return;
         }
         let end = matched.span().end;
-        self.advance_to(end);
+        self.advance_to_relative(end);
     }
 
     /// Advances the given char_indices iterator to the end of the given match.
@@ -179,6 +179,13 @@ impl<'h> FindMatchesImpl<'h> {
     /// If the new position is less than the current position of the char_indices iterator, the
     /// function returns the current position of the char_indices iterator.
     pub(crate) fn advance_to(&mut self, position: usize) -> usize {
+        // The given position is relative to the start of the haystack, like the spans of the
+        // matches returned by `next_match` and `peek_n`, also after `set_offset`.
+        self.advance_to_relative(position.saturating_sub(self.offset)) + self.offset
+    }
+
+    /// Advance the char_indices iterator to the given position relative to the current offset.
+    fn advance_to_relative(&mut self, position: usize) -> usize {
         if position < self.last_position {
             // The new position is less than the current position of the char_indices iterator.
             // The iterator is advanced by one character and the next character is not returned by
